@@ -121,8 +121,11 @@ class UMNDirHandler(DirHandler):
                 continue
             if linkentry.selector in fileentriesdict:
                 if linkentry.gettype() == "X":
-                    # It's special code to hide something.
-                    self.fileentries.remove(fileentriesdict[linkentry.selector])
+                    # It's special code to hide something.  Another block
+                    # may have hidden the same file already.
+                    hidden = fileentriesdict[linkentry.selector]
+                    if hidden in self.fileentries:
+                        self.fileentries.remove(hidden)
                 else:
                     self.mergeentries(fileentriesdict[linkentry.selector], linkentry)
             else:
